@@ -722,6 +722,9 @@ func (st *c04State) checkSearch(na *c04NextA) {
 		if u != "Second" {
 			lc.checkReset()
 		}
+		if u == "Month" || u == "Day" {
+			lc.checkGap()
+		}
 		if u != "Month" {
 			lc.checkCarry(isTop, floorOf[u])
 		}
@@ -806,6 +809,8 @@ func (lc *c04LoopCtx) checkStep() {
 	judged := 0
 	bad := ""
 	var badT *c04T
+	fixedDay := false
+	var fixedDayT *c04T
 	for _, s := range constSteps {
 		if k, ok := lc.dateStep(s); ok {
 			judged++
@@ -847,6 +852,19 @@ func (lc *c04LoopCtx) checkStep() {
 			continue // a month is not a constant duration: only AddDate is judged
 		case "Day":
 			lim = 36 * 3600e9 // the DST fix-ups of the day loop snap 23..25 h steps back to midnight; beyond 36 h a day is skipped
+			// a day is not a fixed duration: across a DST shift that is not a whole number of hours
+			// (Australia/Lord_Howe: 30 minutes) t + 24h is 00:30 or 23:30, and a fix-up that moves by
+			// whole hours keeps the 30 minutes. The step is only sound if the wall clock is rebuilt
+			// (time.Date(y, m, d, 0, 0, 0, 0) / Truncate below the step's result).
+			rebuilt := false
+			for _, n := range lc.sp.nodes {
+				if (n.Op == "date" || n.Op == "tm:Truncate") && c04Below(n, s) {
+					rebuilt = true
+				}
+			}
+			if !rebuilt && d > 0 {
+				fixedDay, fixedDayT = true, s
+			}
 		default:
 			lim = unitNs[u]
 		}
@@ -856,6 +874,8 @@ func (lc *c04LoopCtx) checkStep() {
 		}
 	}
 	switch {
+	case bad == "" && fixedDay && len(lc.sp.unknown) == 0:
+		r.Violation(rule, construct, c04TermPos(p, fixedDayT, c04IfPos(l.If)), "the Day loop advances by a fixed duration (Add) instead of a calendar day and does not rebuild the wall clock afterwards: across a DST shift that is not a whole number of hours (Australia/Lord_Howe, 30 minutes) t+24h is 00:30 or 23:30, whole-hour fix-ups keep the 30 minutes, and because the lower-order fields are not reset again the matching time on the target day is missed — Next returns a later instant than the earliest match")
 	case bad != "":
 		r.Violation(rule, construct, c04TermPos(p, badT, c04IfPos(l.If)), bad+": values of the "+u+" field are skipped, so an earlier matching instant can be missed")
 	case judged > 0:
@@ -1489,6 +1509,7 @@ func (st *c04State) checkZone(na *c04NextA) {
 	// (b) every time.Date reached from Next builds its instant in the schedule's location or t's own
 	nDate := 0
 	bad, undec := "", ""
+	callerZone := false
 	var badPos token.Pos
 	tb.VisitTree(root, func(fr *c04Frame2, in ssa.Instruction) {
 		c, ok := in.(*ssa.Call)
@@ -1497,10 +1518,18 @@ func (st *c04State) checkZone(na *c04NextA) {
 		}
 		nDate++
 		lt := c04EntryTermIn(tb, fr, c.Call.Args[7])
+		canBeSched := false
 		for _, alt := range lt.alts() {
 			switch {
 			case isSchedLoc(alt):
+				canBeSched = true
 			case alt.Op == "tm:Location":
+				// the zone of an instant: the schedule's zone if that instant was converted into it
+				if len(alt.Args) == 1 && alt.Args[0].contains(func(x *c04T) bool {
+					return x.Op == "tm:In" && len(x.Args) == 2 && x.Args[1].contains(isSchedLoc)
+				}) {
+					canBeSched = true
+				}
 			case alt.Op == "global":
 				bad = "a time.Date reached from Next is built in the fixed location " + alt.Name
 				badPos = c.Pos()
@@ -1508,10 +1537,19 @@ func (st *c04State) checkZone(na *c04NextA) {
 				undec = "the location of a time.Date reached from Next is computed as " + alt.Op + " " + alt.Name
 			}
 		}
+		if !canBeSched && undec == "" && bad == "" {
+			bad = "a time.Date reached from Next is always built in the zone of the instant passed in (t.Location() before the conversion), never in SpecSchedule.Location"
+			badPos = c.Pos()
+			callerZone = true
+		}
 	})
 	switch {
 	case bad != "":
-		r.Violation(rule, "cron.SpecSchedule.Next time.Date location", p.Pos(badPos), bad+", neither SpecSchedule.Location nor t.Location(): the reset lands on midnight/the hour of another zone and the fields are then read in a different zone than they were set in")
+		if callerZone {
+			r.Violation(rule, "cron.SpecSchedule.Next time.Date location", p.Pos(badPos), bad+": for a schedule with its own zone the reset moves the search onto the caller's wall clock, and all later field tests are read there — e.g. 'TZ=Asia/Tokyo 0 0 0 1 Mar *' asked from a UTC instant yields 1 March 00:00 UTC instead of 00:00 JST")
+		} else {
+			r.Violation(rule, "cron.SpecSchedule.Next time.Date location", p.Pos(badPos), bad+", neither SpecSchedule.Location nor t.Location(): the reset lands on midnight/the hour of another zone and the fields are then read in a different zone than they were set in")
+		}
 	case undec != "":
 		r.Undecide("Next: %s", undec)
 	case nDate > 0:
@@ -1863,4 +1901,91 @@ func c04MemInstant(l *c04Loop) (al *ssa.Alloc, field int, n int) {
 		}
 	}
 	return
+}
+
+// checkGap: a calendar step (AddDate, or time.Date with field+1) asks for "the
+// same wall-clock time on another date"; when that time does not exist (DST gap
+// at local midnight) the time package answers with an instant off by the gap —
+// 23:00 of the previous day, which for the month step is still the OLD month.
+// The loop must therefore look at the stepped instant and adjust it (the day
+// loop's "hour is no longer midnight" fix-up) before it goes on. Necessary:
+// some Add/AddDate/Date applied after the step whose amount depends on an
+// accessor of the stepped instant.
+func (lc *c04LoopCtx) checkGap() {
+	r, p, u, l := lc.st.r, lc.st.p, lc.u, lc.l
+	rule := "C04.N2-search"
+	construct := lc.base + ": dst gap"
+	constSteps, _ := lc.steps()
+	var calSteps []*c04T
+	for _, s := range constSteps {
+		if s.Op == "tm:AddDate" {
+			calSteps = append(calSteps, s)
+		} else if _, ok := lc.dateStep(s); ok {
+			calSteps = append(calSteps, s)
+		}
+	}
+	if len(calSteps) == 0 {
+		// a fixed-duration step: judged by the step rule (needs a full reset after it)
+		if len(lc.sp.unknown) > 0 {
+			r.Undecide("Next %s loop: the value the loop continues with is computed through %s: the handling of a non-existent local midnight is not decided", u, lc.sp.unknown[0])
+		} else {
+			r.OK(rule, construct, p.Pos(c04IfPos(l.If)), "no calendar step (AddDate / Date) in this loop")
+		}
+		return
+	}
+	// an adjustment above a calendar step: a node whose arguments read an accessor of an instant derived from the step
+	adjusted := func(step *c04T) bool {
+		for _, n := range lc.sp.nodes {
+			if n.Key() == step.Key() || !c04Below(n, step) {
+				continue
+			}
+			var amount []*c04T
+			switch n.Op {
+			case "tm:Add", "tm:AddDate":
+				amount = n.Args[1:]
+			case "date":
+				amount = n.Args[:7]
+			default:
+				continue
+			}
+			for _, a := range amount {
+				dep := a.contains(func(x *c04T) bool {
+					if !strings.HasPrefix(x.Op, "tm:") || len(x.Args) != 1 {
+						return false
+					}
+					switch x.Op[3:] {
+					case "Hour", "Day", "Month", "Minute", "YearDay":
+					default:
+						return false
+					}
+					return x.Args[0].Key() == step.Key() || c04Below(x.Args[0], step)
+				})
+				if dep && n.Op != "date" {
+					return true
+				}
+				if dep && n.Op == "date" {
+					// rebuilding the date from the stepped instant's own fields does not repair anything
+					continue
+				}
+			}
+		}
+		return false
+	}
+	for _, s := range calSteps {
+		if !adjusted(s) {
+			if len(lc.sp.unknown) > 0 {
+				r.Undecide("Next %s loop: the value the loop continues with is computed through %s: the handling of a non-existent local midnight is not decided", u, lc.sp.unknown[0])
+				return
+			}
+			why := "when local midnight of the target date does not exist (DST gap starting at 00:00: America/Asuncion 2017-10-01, America/Havana 2012-04-01, America/Sao_Paulo until 2018) the calendar step lands one hour early, on 23:00 of the previous day"
+			if u == "Month" {
+				why += " — still in the OLD month, so the month is counted again, t drifts to the 30th 23:00 of the following months, and when the month finally matches the day search crosses into the next month and the whole year is skipped: 'TZ=America/Asuncion 0 0 0 1 Dec *' from 2017-09-15 yields 2018-12-01 instead of 2017-12-01"
+			} else {
+				why += ", the same day is tested again and the search continues from 23:00 instead of the start of the next day"
+			}
+			r.Violation(rule, construct, c04TermPos(p, s, c04IfPos(l.If)), "the "+u+" loop steps by calendar date and continues with the result as it is (no look at the hour/day of the stepped instant, as the day loop's not-midnight fix-up does): "+why)
+			return
+		}
+	}
+	r.OK(rule, construct, p.Pos(c04IfPos(l.If)), "the calendar step is followed by an adjustment that reads the stepped instant (not-midnight fix-up)")
 }
